@@ -68,6 +68,7 @@ type desc struct {
 	Mutation     string // "" = none
 	Subscription string
 	Directives   []dirDesc
+	Additional   []string // SchemaDefinition.AdditionalTypes
 }
 
 func (d *desc) typ(name string) *typeDesc {
@@ -154,7 +155,7 @@ func (d *desc) sexp() sexp.Node {
 		ds[i] = sexp.T("d", sexp.Str(x.Name), argsSexp("args", x.Args))
 	}
 	return sexp.T("schema", sexp.T("types", ts...), sexp.T("query", sexp.Str(d.Query)), sexp.T("mutation", optName(d.Mutation)),
-		sexp.T("subscription", optName(d.Subscription)), sexp.T("directives", ds...))
+		sexp.T("subscription", optName(d.Subscription)), sexp.T("directives", ds...), sexp.T("additional", strs(d.Additional)...))
 }
 
 // ---- feature sets ----
@@ -228,6 +229,81 @@ func erase(d *desc, F []string) *desc {
 			}
 		}
 		out.Types = append(out.Types, u)
+	}
+	for _, a := range d.Additional {
+		if alive[a] {
+			out.Additional = append(out.Additional, a)
+		}
+	}
+	return out
+}
+
+// the types schema.New reaches from the directives and root types alone (schema/inspect.go):
+// everything else has to be listed in AdditionalTypes to be part of the schema
+func (d *desc) reachable(extra []string) map[string]bool {
+	seen := map[string]bool{}
+	var visit func(n string)
+	visit = func(n string) {
+		if n == "" || seen[n] {
+			return
+		}
+		t := d.typ(n)
+		if t == nil {
+			return
+		}
+		seen[n] = true
+		for _, f := range t.Fields {
+			visit(f.Type.Name)
+			for _, a := range f.Args {
+				visit(a.Type.Name)
+			}
+		}
+		for _, a := range t.Inputs {
+			visit(a.Type.Name)
+		}
+		for _, i := range t.Ifaces {
+			visit(i)
+		}
+		for _, m := range t.Members {
+			visit(m)
+		}
+	}
+	for _, dd := range d.Directives {
+		for _, a := range dd.Args {
+			visit(a.Type.Name)
+		}
+	}
+	visit(d.Query)
+	visit(d.Mutation)
+	visit(d.Subscription)
+	for _, a := range extra {
+		visit(a)
+	}
+	return seen
+}
+
+// after an edit of the description: list whatever has become unreachable
+func (d *desc) completeAdditional() {
+	for {
+		seen := d.reachable(d.Additional)
+		missing := ""
+		for _, t := range d.Types {
+			if !seen[t.Name] {
+				missing = t.Name
+				break
+			}
+		}
+		if missing == "" {
+			return
+		}
+		d.Additional = append(d.Additional, missing)
+	}
+}
+
+func (d *desc) allTypeNames() []string {
+	var out []string
+	for _, t := range d.Types {
+		out = append(out, t.Name)
 	}
 	return out
 }
